@@ -23,7 +23,7 @@ def seeds_table():
                 f = f.split("(")[0]
                 if f not in fns:
                     fns.append(f)
-        det = "; ".join("%s %s" % (x["property"], ",".join(x["rules"])) for x in m.get("detected_by", [])) or ("not detected: outside the property as stated (9.5)" if m.get("not_detected_reason") else "**missed**")
+        det = "; ".join("%s %s" % (x["property"], ",".join(x["rules"])) for x in m.get("detected_by", [])) or (m.get("not_detected_label") or ("not detected: outside the property as stated (9.5)" if m.get("not_detected_reason") else "**missed**"))
         need = " ".join(m.get("needs_to_manifest", "").split())
         need = need.replace("|", "/")
         if len(need) > 150:
